@@ -35,3 +35,24 @@ Example C08_example :
   eval c08_env (expr_of (mkE None 1000 false) (VSub c08_cls (VStr [97; 39]%N)) false)
   = Some (VSub c08_cls (VStr [97; 39]%N)).
 Proof. split; [cbn; auto|vm_compute; reflexivity]. Qed.
+
+(** End to end at the engine level (Proofs/StrBridge.v, EndToEnd.v): the stream
+    the model of the layout engine emits for a subclass instance - a str /
+    bytes subclass included, however its literal is split - glues to the tokens
+    of an expression that evaluates to an instance of the SAME class around the
+    (cut, comment-free) base value. *)
+From PP Require Import Sem Normalize Layout Render Pformat StrBridge EndToEnd.
+Theorem C08_engine_output_evaluates :
+  forall (printable sp wd lb : N -> bool) (fuel ff : nat) (env : str -> option target),
+    env n_float = None -> env n_frozenset = None -> env n_set = None ->
+    forall (w : clsinfo) (b : pyval) (indent width rw : Z) (n : Z) (sort : bool) (out : list sdoc),
+    (1 <= n)%Z -> wf_val (VSub w b) -> evaluable env (VSub w b) ->
+    sdocs_model printable sp wd lb fuel ff (VSub w b) indent width rw None n sort = Some out ->
+    exists e, Glue printable (rtoks (strip out) NNormal) (etoks e) /\ eval env e = Some (VSub w (norm n sort b)).
+Proof.
+  intros printable sp wd lb fuel ff env E1 E2 E3 w b indent width rw n sort out Hn Hw He H.
+  destruct (engine_output_evaluates printable sp wd lb fuel ff env E1 E2 E3 (VSub w b) indent width rw n sort out Hn Hw He H)
+    as (e & G & Ev).
+  exists e. split; [exact G|]. rewrite Ev. reflexivity.
+Qed.
+Print Assumptions C08_engine_output_evaluates.
